@@ -48,7 +48,7 @@ fn reads_of(e: &CEv) -> Vec<(u8, u32, u32)> {
     | (COp::Remove { k }, Res::Val(id, c))
     | (COp::EntryGet { k }, Res::Val(id, c))
     | (COp::FetchWith { k }, Res::Val(id, c))
-    | (COp::EntryOrInsert { k, .. }, Res::Val(id, c)) => vec![(*k, *id, *c)],
+    | (COp::EntryOrInsert { k, .. }, Res::Val(id, c)) | (COp::EntryOrInsertWith { k, .. }, Res::Val(id, c)) => vec![(*k, *id, *c)],
     (COp::MultiGet { .. }, Res::Many(v)) | (COp::MultiRemove { .. }, Res::Many(v)) | (COp::Iter { .. }, Res::Many(v)) | (COp::IterSnapshot, Res::Many(v)) => v.clone(),
     _ => vec![],
   }
@@ -86,7 +86,7 @@ pub fn evaluate(sc: &CacheSc, h: &Hist, out: &RunOut) -> Vec<Violation> {
       let (cost, ttl) = match &e.op {
         COp::Insert { cost, .. } => (*cost, sc.ttl_ns),
         COp::InsertTtl { cost, ttl_ns, .. } => (*cost, Some(*ttl_ns)),
-        COp::EntryOrInsert { cost, .. } => (*cost, sc.ttl_ns),
+        COp::EntryOrInsert { cost, .. } | COp::EntryOrInsertWith { cost, .. } => (*cost, sc.ttl_ns),
         COp::MultiInsert { items } => (items.iter().find(|(kk, _)| kk == k).map(|x| x.1).unwrap_or(1), sc.ttl_ns),
         _ => (1, sc.ttl_ns),
       };
@@ -189,7 +189,7 @@ pub fn evaluate(sc: &CacheSc, h: &Hist, out: &RunOut) -> Vec<Violation> {
         }
       }
       // or_insert inserts at most once per vacancy
-      let only_or_inserts = kw.iter().all(|w| h.evs.iter().any(|e| matches!(e.op, COp::EntryOrInsert { .. }) && e.wrote.iter().any(|x| x.1 == w.id)));
+      let only_or_inserts = kw.iter().all(|w| h.evs.iter().any(|e| matches!(e.op, COp::EntryOrInsert { .. } | COp::EntryOrInsertWith { .. }) && e.wrote.iter().any(|x| x.1 == w.id)));
       if kw.len() > 1 && only_or_inserts && !touched_by_removal {
         vs.push(viol(sc, "C11", "or_insert_inserted_twice", &[], format!("key {k}: {} entry().or_insert calls each inserted their own value although the key was never removed", kw.len())));
       }
